@@ -11,7 +11,8 @@ RULE = ("the fan-out histories of C01 (real logic.Group, real sessions, one cons
         "a case is non-trivial when a consumer joins while the input is live")
 ASSUMPTIONS = ["TS packets / PAT-PMT are abstract blobs here (their production from RTMP messages is C06/C09)",
                "per-GOP cap: lal keeps SingleGopMaxFrameNum+1 entries per GOP (the code's <=); that is taken as 'the cap'",
-               "RTSP consumers (SDP first, key-frame gate on RTP) are covered by the model only at the level of feedRtpPacket's gate in C06's harness"]
+               "RTSP consumers: every SDP of the histories announces video PT 96 / audio PT 97; RTP packets are handed to Group.OnRtpPacket as "
+               "rtprtcp.ParseRtpPacket returns them (the RTP packetisation itself is C12, the SDP text C19)"]
 FULL_OUTPUT = True
 
 _last = {}
@@ -19,15 +20,17 @@ _last = {}
 
 def gen_cases(tier, rng):
     yield from fanout.gen_histories(tier, rng, header_changes=True)
+    yield from fanout.gen_rtsp_histories(tier, rng)
 
 
 def split_impl(c, out):
     """popen= (relay-push sessions still open at the end) is observed on the implementation only"""
-    return "|".join(p for p in out.split("|") if not p.startswith(("hook=", "popen="))) or "-"
+    return "|".join(p for p in out.split("|") if not p.startswith("popen=")) or "-"
 
 
 def nontrivial(c, out):
-    return c.line if ";J" in c.line.split(" ")[2].split("I", 1)[-1] else None
+    tail = c.line.split(" ")[2].split("I", 1)[-1]
+    return c.line if (";J" in tail or ";Y" in tail) else None
 
 
 def oracle(c, out):
@@ -79,6 +82,9 @@ def _oracle(c, out):
         """header content without the generator's trailing 2-byte unique filler"""
         return msgs[i]["p"]
 
+    r = fanout.check_rtsp(cfg, evs, obs)
+    if r:
+        return r
     for cid, k in sorted(kinds.items()):
         segs = obs.get(cid)
         if segs is None:
